@@ -136,7 +136,7 @@ pub fn run(ctx: &Ctx) {
     ctx.set("deep_chains", json!({"max_depth": 120, "documents": chains.len()}));
     ctx.set("evaluations", json!(total_evals));
     ctx.set("distinct_nontrivial", json!(all_distinct.len()));
-    let searches: Vec<(usize, usize)> = ctx.tier.pick(vec![(2, 4), (3, 1)], vec![(2, 6), (3, 2)]);
+    let searches: Vec<(usize, usize)> = ctx.tier.pick(vec![(2, 4), (3, 1)], vec![(2, 8), (3, 2)]);
     for (aw, depth) in searches {
         let alphabet = materialise(history_cfg(aw));
         let mut events: Vec<Event> = alphabet.iter().cloned().map(Event::doc).collect();
